@@ -7,6 +7,7 @@ from harness.common import SHARD, concretize, load_known
 from harness import ops
 from vkit.net import FaultPlan, Interrupt, F_TIMEOUT
 from vkit.stats import VIOL, SKIP, OK, ok, skip, viol
+from vkit import clock as vclock
 
 from pymemcache.client.base import PooledClient
 
@@ -24,6 +25,8 @@ OP1 = SHARD.get("op1", "set")
 FOLLOW = tuple(SHARD.get("follow", ("get", "set")))
 MAXF = SHARD.get("maxf", 12)
 NSERV = 2 if STACK == "hash2" else 1
+IDLE = SHARD.get("idle", False)     # pooled stacks with pool_idle_timeout=1 and 3 time units between calls: the next call
+                                    # retires the idle connection (close() inside ObjectPool.get) before it does anything else
 EXCS = (KeyboardInterrupt, SystemExit, Interrupt)
 
 
@@ -42,6 +45,8 @@ def _after(k, name, outcome, net, client):
         if len(p.used) != 0:
             return "after call %d (%s, outcome %s) %d pooled connection(s) are still checked out" % (
                 k, name, outcome[0], len(p.used))
+    if IDLE:
+        vclock._CURRENT[0].advance(3)
     return None
 
 
@@ -55,9 +60,12 @@ def h_interrupt(nr1: int, nr2: int, fat: int, which: int, op2: int, after: bool)
     """
     exc = EXCS[concretize(which, 0, 2)]
     calls = [(OP1, ops.NR[concretize(nr1, 0, 2)]), (FOLLOW[concretize(op2, 0, len(FOLLOW) - 1)], ops.NR[concretize(nr2, 0, 2)])]
+    if IDLE:
+        calls.append(("get", None))
     plan = FaultPlan(at=fat, kind=F_TIMEOUT, exc=exc, after=bool(after))
     r = ops.run_history(STACK, calls, plan, 0, nservers=NSERV, after_call=_after, expect_base_exc=EXCS,
-                        check_leftover=False)  # C10 speaks about what later calls read, not about queued bytes as such
+                        check_leftover=False,  # C10 speaks about what later calls read, not about queued bytes as such
+                        net_opts={"count_close": True}, client_kw={"pool_idle_timeout": 1} if IDLE else None)
     if r[0] == "viol":
         return viol(STACK, calls, exc.__name__, "raised inside socket call", fat, ":", r[1])
     return ok(r[1])
@@ -78,15 +86,20 @@ def shards(tier):
         for op in oplist:
             S.append(dict(fn="h_interrupt", timeout=900 if tier == "thorough" else 300,
                           shard=dict(stack=st, op1=op, follow=follow)))
+    for st in ("pooled1", "pooled2", "hash1p"):
+        for op in (("set", "get", "set_many", "delete_many") if tier == "thorough" else ("set", "get")):
+            S.append(dict(fn="h_interrupt", timeout=900 if tier == "thorough" else 300,
+                          shard=dict(stack=st, op1=op, follow=follow, idle=True, maxf=14)))
     return S
 
 
 BOUNDS = {
     "quick": "2 calls: first = one of 6 operations on Client / PooledClient(max 1, max 2) / HashClient(pooled) (24 shards); "
-             "the interruption strikes inside any connect/sendall/recv of the history (symbolic index), before or after the "
+             "the interruption strikes inside any connect/sendall/recv/close of the history (symbolic index), before or after the "
              "socket call took effect (symbolic), and is one of "
              "KeyboardInterrupt, SystemExit, a BaseException subclass (symbolic); noreply of both calls and the follow-up "
-             "operation {get, set} symbolic",
+             "operation {get, set} symbolic; the same with pool_idle_timeout=1 and 3 time units between 3 calls (idle connections "
+             "are retired, i.e. closed, inside the next call's ObjectPool.get)",
     "thorough": "15 first operations x 6 stacks, follow-up among 6 operations",
 }
 OUTSIDE = "interruptions outside socket calls (between two bytecodes of pymemcache itself); more than one interruption"
